@@ -46,7 +46,7 @@ class PyRef:
             return isin(op[2], L) and all(isin(d, L) for d in op[1]) and all(
                 not isin(d, ds[:i]) for i, d in enumerate(ds))
         if n == "append":
-            return not isin(op[1], self.values()) and op[1] is not NAN
+            return not isin(op[1], self.values())
         if n == "update":
             d = op[1]
             ks = [k for k, _ in d]
@@ -57,7 +57,7 @@ class PyRef:
             new = [[k, (dict_get(d, k) if dict_get(d, k) is not None else vs)] for k, vs in self.g]
             new += [[k, vs] for k, vs in d if not isin(k, L)]
             allv = [v for _, vs in new for v in vs]
-            return all(not isin(v, allv[:i]) for i, v in enumerate(allv)) and not any(v is NAN for v in allv)
+            return all(not isin(v, allv[:i]) for i, v in enumerate(allv))
         if n == "remove":
             return isin(op[1], L)
         if n == "pop":
@@ -65,7 +65,8 @@ class PyRef:
         if n == "sort":
             return not any(x is NAN for x in L)  # documented restriction: numpy.sort re-creates NaN
         if n == "sort_by":
-            return all(isin(o, L) for o in op[1]) and all(isin(k, op[1]) for k in L)
+            return (all(isin(o, L) for o in op[1]) and all(isin(k, op[1]) for k in L)
+                    and not any(x is NAN for x in L))
         if n == "replace":
             return isin(op[1], L) and isin(op[2], self.members(op[1]))
         if n == "copy":
@@ -205,10 +206,12 @@ class C13(Prop):
             "has at least one successful mutating operation; distinct = distinct (operation-name "
             "sequence, error position/class, final number of groups) signature")
     assumptions = ["1 and 1.0 are never both put in one structure; NaN is the numpy.nan object",
-                   "valid histories never STORE the NaN object (AutoCarver stores the str_nan sentinel; "
-                   "NaN is a lookup argument only); histories storing it are compared with the model "
-                   "(malformed stream) but the invariant is not claimed for them; sort() while the NaN "
-                   "object is a leader is skipped (numpy.sort re-creates the object)"]
+                   "sort()/sort_by() are valid only while the NaN OBJECT is not a leader (Python's "
+                   "`key != iter_key` is True for NaN, so the dict constructor drops that group: "
+                   "precondition of theorem wf_step, see DESIGN); AutoCarver itself stores the str_nan "
+                   "sentinel, never the NaN object; histories violating this are still compared with "
+                   "the model (malformed stream); sort() with a NaN-object leader is skipped "
+                   "(numpy.sort re-creates the object)"]
     trusted_extra = []
 
     # ---- generation -------------------------------------------------------------------------
@@ -227,7 +230,7 @@ class C13(Prop):
             valid = self.dict_init_valid(init)
         else:
             vals = decs(init["v"])
-            valid = not any(isin(v, vals[:i]) for i, v in enumerate(vals)) and not any(v is NAN for v in vals)
+            valid = not any(isin(v, vals[:i]) for i, v in enumerate(vals))
         r = PyRef(self.ref_init(init)) if valid else None
         for op in ops:
             if not valid:
@@ -244,8 +247,8 @@ class C13(Prop):
         allv = [v for _, vs in d for v in vs]
         if any(isin(v, allv[:i]) for i, v in enumerate(allv)):
             return False
-        if any(v is NAN for v in allv):
-            return False  # the NaN object is never stored in a valid history
+        if any(k is NAN for k, _ in d):
+            return False  # a NaN key is dropped by the dict constructor (`key != iter_key`)
         # a key nested in another group must have no content of its own (it is dropped)
         for k, vs in d:
             others = [v for kk, vv in d if not eq(kk, k) for v in vv]
